@@ -24,7 +24,7 @@ std::string lower(std::string s) { for (auto& c : s) if (c >= 'A' && c <= 'Z') c
 std::string extOf(const std::string& n) { auto d = n.rfind('.'); if (d == std::string::npos || d == 0) return ""; return n.substr(d); }
 bool containsNoCase(const std::string& hay, const std::string& needle) { return lower(hay).find(lower(needle)) != std::string::npos; }
 
-struct Ar { std::string file; bool clm = false; std::vector<Member> members; };
+struct Ar { std::string file; bool clm = false; std::vector<Member> members; std::vector<std::string> surplus; uint32_t spare = 0; };
 
 struct Layout {
 	std::map<std::string, std::vector<uint8_t>> loose; // regular files in kDir (exact spelling), archives included
@@ -40,7 +40,7 @@ Layout buildLayout(const Plan& plan) {
 		if (l.verb == "pool") L.pool.push_back(unquoteToken(l.get("name")));
 		else if (l.verb == "loose") L.loose[unquoteToken(l.get("name"))] = prngBytes(l.u("cseed"), static_cast<size_t>(l.u("len")));
 		else if (l.verb == "subdir") L.subdirs.insert(unquoteToken(l.get("name")));
-		else if (l.verb == "archive") { Ar a; a.file = unquoteToken(l.get("file")); a.clm = l.get("kind", "vol") == "clm"; ars[l.u("k")] = a; }
+		else if (l.verb == "archive") { Ar a; a.file = unquoteToken(l.get("file")); a.clm = l.get("kind", "vol") == "clm"; a.spare = static_cast<uint32_t>(l.u("spare", 0)); ars[l.u("k")] = a; }
 	}
 	for (auto& l : plan.world) {
 		if (l.verb != "amember") continue;
@@ -56,6 +56,17 @@ Layout buildLayout(const Plan& plan) {
 		bool clash = false;
 		for (auto& o : it->second.members) if (ref::nameEqualNoCase(o.name, m.name)) clash = true;
 		if (!clash) it->second.members.push_back(m);
+	}
+	// names that sit in a volume's name table without a valid index entry (unused slots): they are NOT members
+	for (auto& l : plan.world) {
+		if (l.verb != "asurplus") continue;
+		auto it = ars.find(l.u("ar"));
+		if (it == ars.end() || it->second.clm) continue;
+		std::string n = unquoteToken(l.get("name"));
+		bool clash = n.empty();
+		for (auto& o : it->second.members) if (ref::nameEqualNoCase(o.name, n)) clash = true;
+		for (auto& o : it->second.surplus) if (ref::nameEqualNoCase(o, n)) clash = true;
+		if (!clash) it->second.surplus.push_back(n);
 	}
 	for (auto& kv : ars) {
 		Ar& a = kv.second;
@@ -77,7 +88,11 @@ void materialise(Layout& L) {
 	for (auto& a : L.archives) {
 		std::vector<uint8_t> bytes;
 		if (a.clm) { std::vector<ref::ClmMember> ms; for (auto& m : a.members) ms.push_back(ref::ClmMember{m.name, m.data}); bytes = ref::encodeClm(ref::WaveFormat(), ms).bytes; }
-		else bytes = imageOf(a.members, 0).bytes;
+		else {
+			std::vector<ref::VolMember> v;
+			for (auto& m : a.members) { ref::VolMember x; x.name = m.name; x.stored = m.stored; x.size = m.size; x.kind = m.kind; v.push_back(x); }
+			bytes = ref::encodeVol(v, a.spare + static_cast<uint32_t>(a.surplus.size()), a.surplus).bytes;
+		}
 		disk::put(std::string(kDir) + "/" + a.file, bytes);
 		L.loose[a.file] = bytes; // an archive is also a regular file of the directory
 	}
@@ -109,8 +124,9 @@ struct ResourceLayout : Family {
 		for (size_t k = 0; k < nar; ++k) {
 			bool clm = r.chance(1, 3);
 			Line a = mkline("world", "archive");
-			a.set("k", k).set("kind", clm ? "clm" : "vol").set("file", quoteToken(randName(r, 1, 5, false) + (clm ? ".clm" : ".vol")));
+			a.set("k", k).set("kind", clm ? "clm" : "vol").set("file", quoteToken(randName(r, 1, 5, false) + (clm ? ".clm" : ".vol"))).set("spare", r.chance(1, 3) ? r.below(3) : 0);
 			p.world.push_back(a);
+			if (!clm && r.chance(1, 3)) { size_t ns = static_cast<size_t>(r.range(1, 2)); for (size_t i = 0; i < ns; ++i) { Line sp = mkline("world", "asurplus"); sp.set("ar", k).set("name", quoteToken(pick())); p.world.push_back(sp); } }
 			size_t nm = static_cast<size_t>(r.chance(1, 20) ? r.range(17, 30) : r.below(6));
 			for (size_t i = 0; i < nm; ++i) { Line m = mkline("world", "amember"); m.set("ar", k).set("name", quoteToken(r.chance(4, 5) ? pick() : randName(r, 1, 8, false))).set("cseed", hex64(r.next())).set("len", r.below(300)); p.world.push_back(m); }
 		}
